@@ -146,8 +146,12 @@ fn single_cases(rng: &mut Rng, ncases: usize, max_side: usize) {
     let arrays = eight(&sp, &sp, ls, li, ls, li);
     let sv = sv_sums(&arrays[0], n);
     let free = free_function_obs(rng, &spdc, range, &taus, integrator);
+    // the exchanged twin on the exchanged ranges (C10_purity_exchange): V_ss <-> V_ii
+    let twin = spdc.clone().with_swapped_signal_idler();
+    let range_sw = space(li, ls);
+    let vis_twin = vis_json(guarded(move || twin.hom_two_source_visibilities(range_sw, integrator)));
     emit(json!({
-      "kind": "single", "setup": name, "config": cfg, "n": n, "mode": mode, "free": free,
+      "kind": "single", "setup": name, "config": cfg, "n": n, "mode": mode, "free": free, "vis_twin": vis_twin,
       "ls": [fx(ls.0), fx(ls.1)], "li": [fx(li.0), fx(li.1)], "taus": fxs(&taus),
       "series": vec3(series),
       "vis": match vis {
